@@ -10,21 +10,49 @@ open IncrVerif.Proofs.Xp
 
 /-! ## frames -/
 
-theorem bf_of_sf (D : Nat → Prop) {a b : State} (sf : SF a b) : BF D a b := by
-  refine ⟨Nat.le_of_eq sf.size.symm, fun x _ => sf.kind x, sf.top, fun e er he => ?_⟩
+theorem bf_of_sf (D : Nat → Prop) {a b : State} (sf : SF a b)
+    (hst : ∀ m e, m < a.nodes.size → (a.nodeD m).kind = .expert e → ((V a).nodeD m).recomputedAt = -1 →
+      ((V b).nodeD m).recomputedAt = -1) : BF D a b := by
+  refine ⟨Nat.le_of_eq sf.size.symm, fun x _ => sf.kind x, sf.top, fun e er he => ?_, hst⟩
   obtain ⟨er', he', -, h2, h3, h4, -⟩ := sf.xf.xrec he
   exact ⟨er', he', h2, h4, fun _ => h3, [], by rw [h3, List.append_nil]⟩
 
-theorem bf_started' (D : Nat → Prop) (n : Nat) (s : State) : BF D s (started n s) :=
+theorem bf_started' (D : Nat → Prop) (n : Nat) (s : State) (hn : ∀ e, (s.nodeD n).kind ≠ .expert e) :
+    BF D s (started n s) :=
   ⟨Nat.le_of_eq (started_size n s).symm, fun x _ => started_kind n s x, rfl,
-    fun _ er h => ⟨er, h, rfl, rfl, fun _ => rfl, [], (List.append_nil _).symm⟩⟩
+    fun _ er h => ⟨er, h, rfl, rfl, fun _ => rfl, [], (List.append_nil _).symm⟩,
+    fun m e _ hk hs => V_stamp_keep hk (started_kind n s m) (by
+      rw [started_nodeD]
+      split
+      · rename_i h
+        have : m = n := h.1.symm
+        subst this
+        exact absurd hk (hn e)
+      · rfl) (fun h => h) hs⟩
 
 section
 variable {env : Env} {s s2 s' : State} {n op eres fuel : Nat} {pr : PerKeyRec} {m : List (Int × Int)} {r : Option Nat}
 
+/-- the final static step of the change detector keeps the virtual stamps of the expert nodes -/
+theorem lc_stamp_final (B : LcBase env s n op pr eres) (E : LE env s n op pr eres m s2) {ch : Bool} {r0 : Int}
+    (R : BindH.StepRelB n .unit ch r (unstamp n r0 (V s2)) (V s')) :
+    ∀ x e, x < s2.nodes.size → (s2.nodeD x).kind = .expert e → ((V s2).nodeD x).recomputedAt = -1 →
+      ((V s').nodeD x).recomputedAt = -1 := by
+  intro x e _ hk hs
+  obtain ⟨-, -, -, -, -, -, -, -, -, hnlt, hnk⟩ := B.facts
+  have hxn : x ≠ n := by
+    rintro rfl
+    rw [(lf_old E.lf hnlt).1, hnk] at hk
+    cases hk
+  have O := R.other x hxn
+  rw [unstamp_other _ _ _ hxn] at O
+  rw [O.recomputedAt]; exact hs
+
 /-- the bookkeeping frame of the whole run -/
-theorem lc_bf (E : LE env s n op pr eres m s2) (sf : SF s2 s') : BF (fun e => e = eres) s s' :=
-  ((bf_started' _ n s).trans E.lf.bf).trans (bf_of_sf _ sf)
+theorem lc_bf (B : LcBase env s n op pr eres) (E : LE env s n op pr eres m s2) {ch : Bool} {r0 : Int}
+    (R : BindH.StepRelB n .unit ch r (unstamp n r0 (V s2)) (V s')) (sf : SF s2 s') :
+    BF (fun e => e = eres) s s' :=
+  ((bf_started' _ n s B.n_not_expert).trans E.lf.bf).trans (bf_of_sf _ sf (lc_stamp_final B E R))
 
 /-- the old nodes after the whole run -/
 theorem lc_old_final (E : LE env s n op pr eres m s2) {ch : Bool} {r0 : Int}
@@ -118,7 +146,7 @@ theorem lc_opok_self (B : LcBase env s n op pr eres) (E : LE env s n op pr eres 
   cases h2
   have C := E.core _ hpn
   have C' : OpCore env s' op { pr with prevNodes := pn, prevMap := m } :=
-    C.bf_same_size (bf_of_sf (fun _ => False) sf) E.frag sf.size
+    C.bf_same_size (bf_of_sf (fun _ => False) sf (lc_stamp_final B E R)) E.frag sf.size
       (fun e er er' he he' => by
         obtain ⟨er1, he1, -, -, h3, -⟩ := sf.xf.xrec he
         rw [he'] at he1; cases he1; exact h3)
@@ -138,7 +166,7 @@ theorem lc_opok_other (B : LcBase env s n op pr eres) (E : LE env s n op pr eres
   have H := A.pk.ops op' pr' hp
   obtain ⟨x, e, er, hN, -⟩ := H.nodes
   obtain ⟨c1, c2, -, -⟩ := B.conv_ne hN
-  refine OpOK.bf_other (lc_bf E sf) A.frag B.hop hp hne B.opok B.hres H
+  refine OpOK.bf_other (lc_bf B E R sf) A.frag B.hop hp hne B.opok B.hres H
     (fun x hx => (lc_old_final E R sf hx).2.1) ?_ ?_ (lc_stale_other B E R sf hN hne)
     ((lc_old_final E R sf c2).2.2.2 c1).1
   · intro c x hc1 hc2 hx
@@ -171,7 +199,7 @@ theorem lc_pkok (B : LcBase env s n op pr eres) (E : LE env s n op pr eres m s2)
   · -- recs
     refine recsOK_bf (op := op) A.pk.recs (fun e er he => ?_) (fun e er' he' => ?_) (fun op' pr' hp => ?_)
       (fun e er' hge he' => ?_)
-    · obtain ⟨er', he', h1, h2, -⟩ := (lc_bf E sf).xrec e er he
+    · obtain ⟨er', he', h1, h2, -⟩ := (lc_bf B E R sf).xrec e er he
       exact ⟨er', he', h2, h1⟩
     · by_cases he : e < s.experts.size
       · exact Or.inl ⟨s.experts[e], Array.getElem?_eq_getElem he⟩
